@@ -368,3 +368,42 @@ def PointTier_insertEntry(self, entry, collisionMode, collisionReportingMode):
     self._entries = E2
     self.minTimestamp = min(self.minTimestamp, new.time)
     self.maxTimestamp = max(self.maxTimestamp, new.time)
+
+
+# ---- C07 with shrinking: "everything after b moves earlier by exactly b-a, the span's end decreases by b-a,
+# and an interval that straddled the region comes out as one interval shortened by b-a"
+
+from spec.prims import insert_at
+
+
+def shrink_shift(x, a, b):
+    """an entry that survived the blanking of [a,b]: it lies wholly before a or wholly after b"""
+    if x.end <= a:
+        return [x]
+    if x.start >= b:
+        return [Interval(a + (x.start - b), a + (x.end - b), x.label)]
+    return []
+
+
+def fuse_at(L, t):
+    """two touching same-label pieces meeting at time t become one entry (the two halves of a straddler)"""
+    i = first_index(range(len(L) - 1),
+                    lambda k: L[k].end == t and L[k + 1].start == t and L[k].label == L[k + 1].label)
+    if i < 0:
+        return L
+    fused = Interval(L[i].start, L[i + 1].end, L[i].label)
+    return insert_at(remove_at(remove_at(L, i + 1), i), i, fused)
+
+
+def IntervalTier_eraseRegion(self, start, end, collisionMode, doShrink):
+    if collisionMode not in ERASE_MODES:
+        raise errors.WrongOption("collisionMode", collisionMode, ERASE_MODES)
+    if start >= end:
+        raise errors.ArgumentError("")
+    if collisionMode == "error" and exists(self.entries, lambda e: overlaps(e, start, end)):
+        raise errors.CollisionError("")
+    kept = [x for e in self.entries for x in erase_pieces(e, start, end, collisionMode)]
+    if doShrink is not True:
+        return IntervalTier(self.name, kept, self.minTimestamp, self.maxTimestamp)
+    moved = [y for x in kept for y in shrink_shift(x, start, end)]
+    return IntervalTier(self.name, fuse_at(moved, start), self.minTimestamp, start + (self.maxTimestamp - end))
